@@ -164,6 +164,8 @@ impl<F: PathFetcher> PathSet<F> {
             let cancel_token = cancel_token.clone();
 
             async move {
+                #[cfg(anapaya_scion_sdk_verif)]
+                crate::path::manager::verif_sync::yield_point("worker.start");
                 let maintain = async {
                     // Update the managed path tuple on start
                     {
